@@ -75,6 +75,25 @@ func vfC17SrvYAML(port, maxConn, cacheSize int) string {
 	return fmt.Sprintf("kind: HTTPServer\nname: vfc17\nport: %d\nkeepAlive: true\nkeepAliveTimeout: 600s\nhttps: false\nmaxConnections: %d\ncacheSize: %d\nrules: []\n", port, maxConn, cacheSize)
 }
 
+// vfC17SrvDial dials with retries: on a machine where other processes churn through the ephemeral
+// port range a connect can fail transiently (EADDRNOTAVAIL, timeouts); only a persistent failure
+// (about 25 s of attempts) makes the case inconclusive.
+func vfC17SrvDial(addr string) (net.Conn, error) {
+	var err error
+	for attempt := 0; attempt < 60; attempt++ {
+		var c net.Conn
+		if c, err = net.DialTimeout("tcp", addr, vfC17SrvWait); err == nil {
+			return c, nil
+		}
+		d := time.Duration(attempt+1) * 10 * time.Millisecond
+		if d > 500*time.Millisecond {
+			d = 500 * time.Millisecond
+		}
+		time.Sleep(d)
+	}
+	return nil, err
+}
+
 func vfC17FreePort() (int, error) {
 	l, err := net.Listen("tcp", ":0")
 	if err != nil {
@@ -131,14 +150,24 @@ func TestVerifC17HTTPServerObject(t *testing.T) {
 			steps[i] = s
 		}
 		script := fmt.Sprintf("maxConnections=%d clients=%d steps=%v", cap0, cap0+extra, steps)
+		portSeed := rapid.IntRange(0, 21999).Draw(rt, "portSeed") // not part of the case: only where the server listens
 
 		// ---- start a real HTTPServer
 		var hs *HTTPServer
 		var port int
-		for attempt := 0; attempt < 4 && hs == nil; attempt++ {
-			p, err := vfC17FreePort()
-			if err != nil {
-				rt.Fatalf("VF-INCONCLUSIVE no free port: %v", err)
+		// Port acquisition. HTTPServer binds the port itself, so a port can only be proposed, and on this
+		// shared machine other processes take ephemeral ports all the time (as listeners and as source
+		// ports of outgoing connections). Therefore candidates come from OUTSIDE the kernel's ephemeral
+		// range (nobody gets them by accident), every third attempt asks the kernel instead, and a
+		// failed bind (stateFailed) just moves on to the next candidate.
+		const vfPortAttempts = 30
+		var bindErrs []string
+		for attempt := 0; attempt < vfPortAttempts && hs == nil; attempt++ {
+			p := 10000 + (portSeed+attempt*7919)%22000
+			if attempt%3 == 2 {
+				if kp, err := vfC17FreePort(); err == nil {
+					p = kp
+				}
 			}
 			ss, err := supervisor.NewSpec(vfC17SrvYAML(p, cap0, 0))
 			if err != nil {
@@ -162,11 +191,12 @@ func TestVerifC17HTTPServerObject(t *testing.T) {
 			if up {
 				hs, port = h, p
 			} else {
-				h.Close() // port taken by somebody else in the meantime
+				bindErrs = append(bindErrs, fmt.Sprintf("%d: state=%v err=%v", p, h.runtime.getState(), h.runtime.getError()))
+				h.Close() // port in use: next candidate
 			}
 		}
 		if hs == nil {
-			rt.Fatalf("VF-INCONCLUSIVE HTTPServer could not bind a port")
+			rt.Fatalf("VF-INCONCLUSIVE HTTPServer could not bind any of %d candidate ports: %v", vfPortAttempts, bindErrs)
 		}
 		addr := fmt.Sprintf("127.0.0.1:%d", port)
 		r := &vfC17SrvRig{bound: cap0}
@@ -204,9 +234,9 @@ func TestVerifC17HTTPServerObject(t *testing.T) {
 
 		dial := func(n int) {
 			for i := 0; i < n; i++ {
-				conn, err := net.DialTimeout("tcp", addr, vfC17SrvWait)
+				conn, err := vfC17SrvDial(addr)
 				if err != nil {
-					inconclusive = "dial failed: " + err.Error()
+					inconclusive = "dial failed (after retries): " + err.Error()
 					return
 				}
 				c := &vfC17SrvClient{id: len(clients), conn: conn, br: bufio.NewReader(conn), cmd: make(chan struct{}, 4)}
